@@ -133,6 +133,13 @@ def h_listen_add(kind):
         ob = eng.oblige(f"{U}/post.I_listen", tb.I_listen())
         if ob.status == "refuted" and yielded:
             ob.witness = {"signature": "table-entry-without-listener-after-cancelled-subscribe", "mode": "cancel"}
+            try:
+                n_after = ob._z3model.eval(tb.count(t), model_completion=True).as_long()
+            except Exception:  # noqa
+                n_after = None
+            if n_after is not None and n_after >= 2:
+                # another subscriber set the topic up while this one was suspended, and this one subscribed again
+                ob.witness = {"signature": "second-listener-for-a-topic-subscribed-meanwhile", "mode": "two-subscribers"}
         if kind_ == "exc":
             ob = eng.oblige(f"{U}/post.only-cancellation-escapes", val.cls.name == "CancelledError" and yielded)
             if ob.status == "refuted" and yielded:
@@ -204,6 +211,10 @@ def harnesses():
         hs.append(Harness(f"DecoratorManager.stop[{n}]", h_dm_stop(n), units=[(DA_PY, "DecoratorManager.stop"), (DA_PY, "DecoratorManager._stop_decorator"), (DA_PY, "DecoratorManager.update_status")]))
     for nf, nd in ((0, 0), (1, 1), (2, 2)):
         hs.append(Harness(f"GlobalContext.stop[{nf},{nd}]", h_gc_stop(nf, nd), units=[(GC_PY, "GlobalContext.stop")]))
+    for nt in (0, 2):
+        for ws in (False, True):
+            hs.append(Harness(f"EvalFunc.trigger_stop[{nt};service={ws}]", h_evalfunc_trigger_stop(nt, ws), replay=replay_stop_twice,
+                              units=[(f"{PKG}/eval.py", "EvalFunc.trigger_stop"), (f"{PKG}/eval.py", "EvalFunc.trigger_start")]))
     for n in (1, 2):
         hs.append(Harness(f"FunctionDecoratorManager.finalizer[{n}]", h_fdm_dropped(n), replay=replay_dropped,
                           units=[(D_PY, "FunctionDecoratorManager.__init__"), (DA_PY, "DecoratorManager.start"), (DA_PY, "DecoratorManager.stop"), (DA_PY, "DecoratorManager.update_status")]))
@@ -680,6 +691,53 @@ def h_fdm_dropped(n):
                 ob.witness = {"signature": "dropped-before-context-start"}
             eng.oblige(f"{U}/waiting.never-running", dm._fields["status"] is not M["RUNNING"])
     return h
+
+
+def h_evalfunc_trigger_stop(nt, with_service):
+    """Legacy subsystem: EvalFunc.trigger_stop stops every trigger task of the function exactly once and FORGETS them, with or
+    without @service names, so that a second stop (del f, then unload; garbage collection after a reload) or a later start of
+    the context finds nothing to stop or start again."""
+    def h(eng):
+        from . import C12 as c12
+        it, w, mod, Fn, S = c12.setup(eng)
+        c12.install_contracts(it, w, Fn, S)
+        emod = c12.load_eval(it, w, Fn)
+        self_ = c12.mk_evalfunc(it, emod, w)
+        trigs = []
+        for i in range(nt):
+            t = Rec(fields={}, name=f"trig{i}")
+            t._fields["stop"] = (lambda i=i: (lambda interp: w.emit("trig.stop", i)))()
+            t._fields["start"] = (lambda i=i: (lambda interp: w.emit("trig.start", i)))()
+            trigs.append(t)
+        self_._fields["trigger"] = list(trigs)
+        if with_service:
+            nm = it.to_sym_str("pyscript.f", DName(None))
+            eng.assume(z3.And(z3.Select(S["own"].cols["dom"], nm.t), z3.Select(S["own"].cols[".v"], nm.t) == c12.coerce_ctx(it, "file.x").t,
+                              c12.snap_count(S["cnt"].snapshot(), nm.t) >= 1))
+            eng.assume(c12.I_svc(S["cnt"].snapshot(), S["own"].snapshot(), S["reg"].snapshot()))
+            self_._fields["trigger_service"] = SymPySet(["pyscript.f"])
+        U = "C09/EvalFunc.trigger_stop"
+        kind, _ = run_catching(it, lambda: it.call(it.getattr_(self_, "trigger_stop"), [], {}))
+        eng.cover(f"stop:{kind}")
+        eng.oblige(f"{U}/post.no-exception", kind == "ok")
+        eng.oblige(f"{U}/post.every-trigger-stopped-once", sorted(e[1] for e in w.events("trig.stop")) == list(range(nt)))
+        ob = eng.oblige(f"{U}/post.triggers-forgotten", list(self_._fields["trigger"]) == [] and list(self_._fields["trigger_service"]) == [])
+        if ob.status == "refuted":
+            ob.witness = {"signature": "stopped-triggers-kept"}
+        eng.oblige(f"{U}/post.services-released-once", len(w.events("service_remove")) == (1 if with_service else 0))
+        # what the owners do later: a second stop, and a start of the context
+        k2, _ = run_catching(it, lambda: it.call(it.getattr_(self_, "trigger_stop"), [], {}))
+        k3, _ = run_catching(it, lambda: it.call(it.getattr_(self_, "trigger_start"), [], {}))
+        ob = eng.oblige(f"{U}/post.second-stop-and-later-start-touch-nothing", k2 == "ok" and k3 == "ok" and len(w.events("trig.stop")) == nt
+                        and len(w.events("trig.start")) == 0 and len(w.events("service_remove")) == (1 if with_service else 0))
+        if ob.status == "refuted":
+            ob.witness = {"signature": "stopped-triggers-kept"}
+    return h
+
+
+def replay_stop_twice(wj):
+    from replay.native import run_native
+    return run_native("c09_legacy_stop_twice", wj)
 
 
 def replay_dropped(wj):
